@@ -115,6 +115,14 @@ fn length_checked() -> bool {
         <zkp::Generator as Deserialize>::deserialize(&g[..32]).is_err() && <zkp::Generator as Deserialize>::deserialize(&g[..]).is_ok()
     })
 }
+/// Debug fingerprint of an in-memory PSET: a "built" case carries the fingerprint of the object it was serialized FROM, so that
+/// deserialize(serialize(p)) = p is judged against the original and not only against what the encoder chose to write (seeded C07-r6-2)
+fn fp(p: &Pset) -> String { hex(&sha256::Hash::hash(format!("{:?}", p).as_bytes()).to_byte_array()[..12]) }
+pub fn mkb(p: &Pset, b: &[u8], tags: Vec<String>, nt: bool) -> Case {
+    let mut c = mk("built", b, tags, nt);
+    if c.text.starts_with("C07 built ") { c.text = format!("{} {}", c.text, fp(p)); }
+    c
+}
 pub fn mk(mode: &str, b: &[u8], mut tags: Vec<String>, nt: bool) -> Case {
     tags.push(format!("mode:{}", mode));
     if short_commitment(b) && length_checked() { tags.push("short-commitment-value".into()); }
@@ -304,7 +312,13 @@ pub fn eval(case: &str) -> Out {
         }
         "vcanon" => Out::ok("harnesserr vcanon-is-model-only".into()),
         "shortcomm" => eval_shortcomm(&arg(8).unwrap_or_default()),
-        _ => match arg(8) { Some(b) => if short_commitment(&b) && !length_checked() { Out::ok("harnesserr refused: a commitment value shorter than 33 bytes would be read out of bounds".into()) } else { eval_bin(mode, &b) }, None => Out::ok("harnesserr hex".into()) },
+        _ => match arg(8) { Some(b) => if short_commitment(&b) && !length_checked() { Out::ok("harnesserr refused: a commitment value shorter than 33 bytes would be read out of bounds".into()) } else {
+                let mut o = eval_bin(mode, &b);
+                if let (true, Some(want), None) = (mode == "built", w.get(9), o.pred_fail.as_ref()) {
+                    if let Ok(p) = deserialize::<Pset>(&b) { if fp(&p) != *want {
+                        o.pred_fail = Some("rt-built-value|deserialize(serialize(p)) is not the PSET p that was serialized (Debug fingerprints of the in-memory value before and after differ): the encoder dropped or changed information".into()); } }
+                }
+                o }, None => Out::ok("harnesserr hex".into()) },
     }
 }
 
@@ -597,13 +611,13 @@ pub fn gen(rng: &mut ChaCha20Rng, n: usize, thorough: bool) -> Vec<Case> {
         else if let Ok(tx) = deserialize::<elements::Transaction>(&v) { let b = serialize(&Pset::from_tx(tx)); if b.len() < 30_000 { valid.push(b.clone()); out.push(mk("bin", &b, vec!["src:repo-tx-from_tx".into()], true)); } }
     }
     // (i-a) every optional field alone (exhaustive)
-    for f in 0..N_GLOBAL { let mut tags = vec!["src:one-field".to_string()]; let mut p = base(rng, 1, 1); set_global(&mut p, f, rng, &mut tags); let b = serialize(&p); valid.push(b.clone()); out.push(mk("built", &b, tags, true)); }
-    for f in 0..N_INPUT { let mut tags = vec!["src:one-field".to_string()]; let mut p = base(rng, 1, 1); set_input(&mut p.inputs_mut()[0], f, rng, &mut tags); let b = serialize(&p); valid.push(b.clone()); out.push(mk("built", &b, tags, true)); }
-    for f in 0..N_OUTPUT { let mut tags = vec!["src:one-field".to_string()]; let mut p = base(rng, 1, 1); set_output(&mut p.outputs_mut()[0], f, rng, &mut tags); let b = serialize(&p); valid.push(b.clone()); out.push(mk("built", &b, tags, true)); }
+    for f in 0..N_GLOBAL { let mut tags = vec!["src:one-field".to_string()]; let mut p = base(rng, 1, 1); set_global(&mut p, f, rng, &mut tags); let b = serialize(&p); valid.push(b.clone()); out.push(mkb(&p, &b, tags, true)); }
+    for f in 0..N_INPUT { let mut tags = vec!["src:one-field".to_string()]; let mut p = base(rng, 1, 1); set_input(&mut p.inputs_mut()[0], f, rng, &mut tags); let b = serialize(&p); valid.push(b.clone()); out.push(mkb(&p, &b, tags, true)); }
+    for f in 0..N_OUTPUT { let mut tags = vec!["src:one-field".to_string()]; let mut p = base(rng, 1, 1); set_output(&mut p.outputs_mut()[0], f, rng, &mut tags); let b = serialize(&p); valid.push(b.clone()); out.push(mkb(&p, &b, tags, true)); }
     // (i-b) tap trees of every shape (F9 for >= 2 leaves)
     for nl in 1..=(if thorough { 5 } else { 4 }) { for sh in shapes(nl) {
         let mut p = base(rng, 0, 1); p.outputs_mut()[0].tap_tree = Some(taptree_of(rng, &sh));
-        let b = serialize(&p); out.push(mk("built", &b, vec!["src:taptree".into(), format!("leaves:{}", nl)], true));
+        let b = serialize(&p); out.push(mkb(&p, &b, vec!["src:taptree".into(), format!("leaves:{}", nl)], true));
     } }
     // (i-b') every nested variable-length site x the lengths on both sides of every compact-size boundary
     //        (0xfc | 0xfd, 0xffff | 0x10000; the 64 KiB pair for the tap-tree sites and a rotating ninth of the others per run, for all of them in the thorough tier)
@@ -615,7 +629,7 @@ pub fn gen(rng: &mut ChaCha20Rng, n: usize, thorough: bool) -> Vec<Case> {
             let name = set_site(&mut p, site, l, rng);
             let b = serialize(&p);
             if l <= 0x100 { valid.push(b.clone()); }
-            out.push(mk("built", &b, vec!["src:varint-boundary".into(), format!("site:{}", name), format!("len:{:#x}", l)], true));
+            out.push(mkb(&p, &b, vec!["src:varint-boundary".into(), format!("site:{}", name), format!("len:{:#x}", l)], true));
         }
     }
     // ELIP-100 metadata whose contract length sits on a boundary (through the accessors)
@@ -625,7 +639,7 @@ pub fn gen(rng: &mut ChaCha20Rng, n: usize, thorough: bool) -> Vec<Case> {
         out.push(Case { text: format!("{} {} {} {} 0", head("elip", &b), hx(&b), hex(&r32(rng)), hx(&value)), tags: vec!["src:varint-boundary".into(), "site:elip100-contract".into(), format!("len:{:#x}", l), "mode:elip".into()], nontrivial: true });
     }
     // (i-c) empty and boundary shapes
-    for (ni, no) in [(0usize, 0usize), (0, 1), (1, 0), (3, 2)] { let p = base(rng, ni, no); let b = serialize(&p); valid.push(b.clone()); out.push(mk("built", &b, vec!["src:shape".into(), format!("maps:{}x{}", ni, no)], true)); }
+    for (ni, no) in [(0usize, 0usize), (0, 1), (1, 0), (3, 2)] { let p = base(rng, ni, no); let b = serialize(&p); valid.push(b.clone()); out.push(mkb(&p, &b, vec!["src:shape".into(), format!("maps:{}x{}", ni, no)], true)); }
     // (i-d) random subsets
     for _ in 0..n {
         let mut tags = vec!["src:random-subset".to_string()];
@@ -640,7 +654,7 @@ pub fn gen(rng: &mut ChaCha20Rng, n: usize, thorough: bool) -> Vec<Case> {
         valid.push(b.clone());
         let as_text = rng.gen_range(0..6) == 0;
         if as_text { out.push(Case { text: format!("{} {}", head("text", &b), BASE64_STANDARD.encode(&b)), tags: { let mut t = tags.clone(); t.push("mode:text".into()); t }, nontrivial: true }); }
-        else { out.push(mk("built", &b, tags, true)); }
+        else { out.push(mkb(&p, &b, tags, true)); }
     }
     // (iii) accepted and rejected variants of valid encodings: pair reordering, duplicates, dropped mandatory fields, counts, preimages, edits
     for _ in 0..2 * n {
@@ -693,7 +707,7 @@ pub fn gen(rng: &mut ChaCha20Rng, n: usize, thorough: bool) -> Vec<Case> {
             for j in 1..=d { b = b.add_leaf_with_ver(j, Script::from(vec![(j % 251) as u8]), LeafVersion::from_u8(0xc0).unwrap()).unwrap(); }
             b = b.add_leaf_with_ver(d, Script::new(), LeafVersion::from_u8(0xc0).unwrap()).unwrap();
             let mut p = base(rng, 0, 1); p.outputs_mut()[0].tap_tree = Some(TapTree::from_inner(b).unwrap());
-            out.push(mk("built", &serialize(&p), vec!["src:value-limit".into(), "limit:taptree-depth".into(), format!("at:{}", d)], true));
+            out.push(mkb(&p, &serialize(&p), vec!["src:value-limit".into(), "limit:taptree-depth".into(), format!("at:{}", d)], true));
         }
         { let mut p = base(rng, 0, 1); p.outputs_mut()[0].tap_tree = Some(taptree_of(rng, &[0]));
           if let Some(b) = respell(&p, 1, 0x06, &[], &|q: &mut RPair| { q.2 = vec![129, 0xc0, 1, 0x51]; }) { out.push(mk("rejlimit", &b, vec!["src:value-limit".into(), "limit:taptree-depth".into(), "at:129".into()], false)); } }
